@@ -50,7 +50,7 @@ def build_group(g):
 _counter = [0]
 
 
-def build_class(spec, extra_attrs=None, handlers=None, base_cls=None, base_defs=None):
+def build_class(spec, extra_attrs=None, handlers=None, base_cls=None, base_defs=None, handlers_level=None):
     """returns (cls, defs) where defs[group_attr] = Group definition (for attaching handlers).
     handlers: optional callable(defs) -> dict of extra class attributes (methods decorated with @on)
               applied to the most derived class."""
@@ -77,8 +77,10 @@ def build_class(spec, extra_attrs=None, handlers=None, base_cls=None, base_defs=
             dct["name"] = spec["name"]  # NB: a class attribute 'name' shadows the Driver.name property
             if extra_attrs:
                 dct.update(extra_attrs)
-            if handlers:
+            if handlers and handlers_level is None:
                 dct.update(handlers(defs))
+        if handlers and handlers_level is not None and level == min(handlers_level, depth - 1):
+            dct.update(handlers(defs))  # handlers declared in a BASE class, inherited by the instantiated class
         cls = DriverMeta("Gen%d_L%d" % (_counter[0], level), (base,), dct)
         base = cls
     return cls, defs
